@@ -1,4 +1,5 @@
 import Pearl.Proofs.FsLemmas
+import Pearl.Proofs.SyncProto
 /-
 C12: durability ordering, on the file / trace layer (L6, `Pearl/Model/Fs.lean`).
 
@@ -198,3 +199,467 @@ example : (run true 79 4 true true [.write 10 5 none ⟨10, 1⟩ false]).1.activ
 example : (run true 78 4 true true [.write 10 5 none ⟨10, 1⟩ false]).1.activeDirty = some 0 := by decide
 
 end Pearl
+
+/-!
+## The background-sync request protocol (`Pearl/Model/SyncProto.lean`)
+
+`Fs` performs a sync as an immediate effect of the operation that asks for it.  The implementation has three
+cooperating pieces (`Inner::should_try_fsync` / `Inner::fsyncdata` with its `fsync_in_progress` flag and guard,
+`ObserverWorker::try_run_fsync_task` with its task handle, `File::fsyncdata` publishing `synced_size`).  The theorems
+below are about every schedule of the atomic steps of those pieces.
+
+Summary of what is TRUE and what is FALSE of /repo as it is (variant `current`); client writes may be split into
+their append and their `should_try_fsync` (`append` / `decide`), so concurrent client calls are covered:
+* (1) `flag_implies_task`, (4) `synced_size_sound`, the failure half of (3) (`sync_after_failure`,
+  `flag_clear_at_rest`, `comes_to_rest`) and (6) `quiescent_projection` hold.
+* (2) `no_lost_request` and the first half of (3) `bounded_at_quiescence` are FALSE as stated:
+  `bounded_at_quiescence_refuted` (schedule reproduced on the real library with a paused `sync_all`, see there).
+  A write acknowledged while a task is past its size capture is neither covered by the running sync nor does it
+  lead to a new one.  What holds is the bound `limit + blind` (`bounded_at_quiescence_partial`), i.e. `limit` for
+  schedules in which no write lands in that window (`bounded_at_quiescence_no_blind_write`); the gap is unbounded
+  (`bounded_at_quiescence_refuted_any`).
+* (5) the four seeded changes: `guardLate_counter_model`, `resetSkipped_counter_model`, `notReaped_counter_model`,
+  `publishAlways_counter_model`.
+* a candidate repair for which the bound holds after every schedule: `bounded_at_quiescence_repaired`.
+-/
+namespace Pearl
+namespace SyncProto
+
+/-! ### (1) the flag -/
+
+/-- (1) In every reachable state of the shipped protocol (and of every variant that arms the guard right after the
+    compare-exchange), `fsync_in_progress` is set only while a task is between its compare-exchange and its exit:
+    the task body is in one of the phases `held`, `checked`, `syncing _`, `returned true` (`Phase.owns`), and
+    the worker's handle is unfinished. -/
+theorem flag_implies_task {v : Variant} (hv : v.guarded = true) {limit : Nat} {s : St} (h : Reach v limit s)
+    (hf : s.flag = true) : s.phase.owns = true ∧ s.hdl = .running := by
+  have hc := ctl_reach hv h
+  have ho : s.phase.owns = true := by rw [← hc.flag]; exact hf
+  refine ⟨ho, hc.hdl.2 ?_⟩
+  intro hi
+  simp [hi, Phase.owns] at ho
+
+/-- … and conversely a task in one of these phases holds it -/
+theorem task_implies_flag {v : Variant} (hv : v.guarded = true) {limit : Nat} {s : St} (h : Reach v limit s)
+    (ho : s.phase.owns = true) : s.flag = true := by
+  rw [(ctl_reach hv h).flag]; exact ho
+
+/-- neither the flag nor the handle stays stuck: at rest (queue drained, no task body) the flag is clear and the
+    handle is absent or finished, whatever failed before -/
+theorem flag_clear_at_rest {v : Variant} (hv : v.guarded = true) {limit : Nat} {s : St} (h : Reach v limit s)
+    (hq : s.quiescent = true) : s.flag = false ∧ s.hdl ≠ .running := by
+  have hc := ctl_reach hv h
+  rw [quiescent_iff] at hq
+  refine ⟨by rw [hc.flag, hq.2.1]; rfl, ?_⟩
+  intro hr
+  exact hc.hdl.1 hr hq.2.1
+
+-- non-vacuity: a reachable state with the flag set (task after its compare-exchange) …
+example : (⟨220, 20, true, .running, .held, 0, 0, 20, 0, 0⟩ : St).phase.owns = true ∧
+    (⟨220, 20, true, .running, .held, 0, 0, 20, 0, 0⟩ : St).hdl = .running :=
+  flag_implies_task (v := current) rfl (limit := 100) ⟨20, [.write 200, .recv, .cas], by decide⟩ rfl
+-- … and a state at rest reached through a FAILED sync
+example : (⟨220, 20, false, .finished, .idle, 0, 0, 20, 0, 0⟩ : St).flag = false ∧
+    (⟨220, 20, false, .finished, .idle, 0, 0, 20, 0, 0⟩ : St).hdl ≠ .running :=
+  flag_clear_at_rest (v := current) rfl (limit := 100)
+    ⟨20, [.write 200, .recv, .cas, .check, .start, .complete false, .release, .finish], by decide⟩ rfl
+
+/-! ### (4) the published size -/
+
+/-- (4) `synced_size` never exceeds `durable`, the largest size captured by a `sync_all` that SUCCEEDED on the
+    active blob file (or the size it had when it became the active blob), and that never exceeds the file size.
+    Holds for every variant that publishes on the success path only. -/
+theorem synced_size_sound {v : Variant} (hv : v.publishOnlyOnSuccess = true) {limit : Nat} {s : St}
+    (h : Reach v limit s) : s.synced ≤ s.durable ∧ s.durable ≤ s.size :=
+  ⟨(cnt_reach hv h).synced_le, (cnt_reach hv h).durable_le⟩
+
+-- non-vacuity: after a failed sync of 220 bytes nothing above the 20 durable bytes is published
+example : (⟨220, 20, true, .running, .returned true, 0, 0, 20, 0, 0⟩ : St).synced ≤ 20 :=
+  (synced_size_sound (v := current) rfl (limit := 100)
+    ⟨20, [.write 200, .recv, .cas, .check, .start, .complete false], by decide⟩).1
+
+/-! ### (2) requests -/
+
+/-- a write that takes the active blob over the limit sends a request unless a task owns the flag -/
+theorem write_requests_unless_owned {v : Variant} (hv : v.guarded = true) {limit : Nat} {s : St}
+    (h : Reach v limit s) (n : Nat) (hover : s.size + n - s.synced > limit) :
+    (s.phase.owns = false ∧ (afterWrite limit s n).queue = s.queue + 1) ∨
+      (s.phase.owns = true ∧ (afterWrite limit s n).queue = s.queue) := by
+  have hf := (ctl_reach hv h).flag
+  have hlt : limit < s.size + n - s.synced := hover
+  cases ho : s.phase.owns <;> simp [afterWrite, shouldTryFsync, tooMany, hf, ho, hlt]
+
+/-- (2), the part that is true.  In every state reached without a sync failure in which the un-synced bytes exceed
+    `limit + blind` (`blind` = bytes appended since the latest size capture while a task was past its capture),
+    something is still going to look at them: no task body exists and a request is queued or a client call is about
+    to evaluate `should_try_fsync` with the flag clear, or a task has not yet captured the size, or the sync in flight
+    covers all but the blind bytes. -/
+theorem no_lost_request_partial {v : Variant} (hv : v.protoOk = true) {limit : Nat} {s : St}
+    (h : ReachOk v limit s) (hover : s.dirty > limit + s.blind) :
+    (s.phase = .idle ∧ (0 < s.queue ∨ 0 < s.pending)) ∨ s.phase = .spawned ∨ s.phase = .held ∨
+      s.phase = .checked ∨ ∃ cap, s.phase = .syncing cap ∧ s.size ≤ cap + s.blind := by
+  have hc := cover_reachOk hv h
+  simp only [St.dirty] at hover
+  unfold Cover at hc
+  cases hp : s.phase <;> simp only [hp] at hc <;> simp
+  · rcases hc with hc | hc | hc
+    · exact Or.inl hc
+    · exact Or.inr hc
+    · omega
+  · exact hc
+  · omega
+  · omega
+  · omega
+
+/-- (2) as stated is FALSE of /repo.  Two schedules without any failure that end at rest with the active blob over
+    the limit and nothing scheduled.
+    (a) The last write lands while `sync_all` is in flight: over the limit, but `should_try_fsync` sees the flag and
+        sends nothing; the sync publishes the size captured before that write.
+    (b) The last write lands after the guard has reset the flag but before the task's handle reports
+        `is_finished()`: it does send `TryFsyncData`, and `try_run_fsync_task` drops it ("task is in progress"). -/
+theorem no_lost_request_refuted :
+    (∃ pre n post s1 s, run current 100 (init 20) pre = some s1 ∧
+        run current 100 (afterWrite 100 s1 n) post = some s ∧
+        (∀ e ∈ pre ++ post, e.isFailure = false) ∧ (∀ e ∈ post, e.isWrite = false) ∧
+        s.quiescent = true ∧ s.dirty > 100 ∧
+        (afterWrite 100 s1 n).queue = s1.queue ∧ s1.queue = 0) ∧
+    (∃ pre n post s1 s, run current 100 (init 20) pre = some s1 ∧
+        run current 100 (afterWrite 100 s1 n) post = some s ∧
+        (∀ e ∈ pre ++ post, e.isFailure = false) ∧ (∀ e ∈ post, e.isWrite = false) ∧
+        s.quiescent = true ∧ s.dirty > 100 ∧
+        (afterWrite 100 s1 n).queue = s1.queue + 1 ∧ .start ∉ post) := by
+  refine ⟨⟨[.write 79, .write 369, .recv, .cas, .check, .start], 369, [.complete true, .release, .finish],
+      ⟨468, 20, true, .running, .syncing 468, 0, 0, 20, 0, 0⟩, ⟨837, 468, false, .finished, .idle, 0, 0, 468, 369, 0⟩,
+      by decide, by decide, by decide, by decide, by decide, by decide, by decide, by decide⟩,
+    ⟨[.write 200, .recv, .cas, .check, .start, .complete true, .release], 200, [.recv, .finish],
+      ⟨220, 220, false, .running, .released, 0, 0, 220, 0, 0⟩, ⟨420, 220, false, .finished, .idle, 0, 0, 220, 200, 0⟩,
+      by decide, by decide, by decide, by decide, by decide, by decide, by decide, by decide⟩⟩
+
+/-! ### (3) the bound at rest -/
+
+/-- (3), the part that is true: at rest, after any schedule without a sync failure, the un-synced bytes of the active
+    blob are at most the limit plus the bytes acknowledged while a task was past its size capture. -/
+theorem bounded_at_quiescence_partial {v : Variant} (hv : v.protoOk = true) {limit : Nat} {s : St}
+    (h : ReachOk v limit s) (hq : s.quiescent = true) : s.dirty ≤ limit + s.blind := by
+  have hc := cover_reachOk hv h
+  rw [quiescent_iff] at hq
+  simp only [Cover, hq.2.1, hq.1, hq.2.2, Nat.lt_irrefl, false_or] at hc
+  simp only [St.dirty]
+  omega
+
+/-- … so the bound of the property holds for every schedule in which no write lands in that window -/
+theorem bounded_at_quiescence_no_blind_write {v : Variant} (hv : v.protoOk = true) {limit base : Nat}
+    {evs : List Ev} {s : St} (hok : ∀ e ∈ evs, e.isFailure = false)
+    (hnb : noBlindWrite v limit (init base) evs = true) (h : run v limit (init base) evs = some s)
+    (hq : s.quiescent = true) : s.dirty ≤ limit := by
+  have h1 := bounded_at_quiescence_partial hv ⟨base, evs, hok, h⟩ hq
+  have h2 := blind_run evs (init base) s rfl hnb h
+  omega
+
+/-- (3) as stated is FALSE of /repo: limit 100; a 79-byte record (within the limit); a 369-byte record takes the blob
+    over the limit, the request is received, the task wins the compare-exchange, sees 448 > 100 dirty bytes and starts
+    `sync_all` with the captured size 468; a third record of 369 bytes is acknowledged meanwhile (no request: the
+    flag is set); the sync succeeds and publishes 468; guard, task end.  At rest: 369 un-synced bytes, limit 100,
+    nothing queued, nothing running, no failure anywhere.
+    REPRODUCED on the real library (/repo 41a1848, no fault injected, only `sync_all` paused by the I/O hook):
+    `cfg key=4 dup=1 dirty=100 rt=mt`, `w 0000000a 5 - 10 1`, `fault sync 0 .blob pause:1`, `w 0000000b 5 - 300 2`,
+    `wait 100`, `w 0000000c 5 - 300 3`, `release 1`, `trace`, `dirty` →
+    `#trace Wb0:99:369 Sb0:468!pause Wb0:468:369`, `dirty 369` (and still `dirty 369` 500 ms later). -/
+theorem bounded_at_quiescence_refuted :
+    ¬ ∀ s, ReachOk current 100 s → s.quiescent = true → s.dirty ≤ 100 := by
+  intro h
+  have := h ⟨837, 468, false, .finished, .idle, 0, 0, 468, 369, 0⟩
+    ⟨20, [.write 79, .write 369, .recv, .cas, .check, .start, .write 369, .complete true, .release, .finish],
+      by decide, by decide +kernel⟩ rfl
+  exact absurd this (by decide)
+
+/-- the gap is not bounded by anything: for every `N` there is such a state with more than `N` un-synced bytes -/
+theorem bounded_at_quiescence_refuted_any (limit N : Nat) :
+    ∃ s, ReachOk current limit s ∧ s.quiescent = true ∧ s.dirty > N := by
+  refine ⟨⟨20 + (limit + 1) + (N + 1), 20 + (limit + 1), false, .finished, .idle, 0, 0, 20 + (limit + 1), N + 1, 0⟩,
+    ⟨20, [.write (limit + 1), .recv, .cas, .check, .start, .write (N + 1), .complete true, .release, .finish],
+      by simp [Ev.isFailure], ?_⟩, rfl, ?_⟩
+  · simp [run, step, init, shouldTryFsync, tooMany, St.dirty, Phase.blind, current]
+  · simp only [St.dirty]; omega
+
+/-- with failures: the protocol always comes to rest by itself (no client action, every later sync succeeding),
+    from every state of the shipped protocol and of the four seeded variants, within `measure` internal steps -/
+theorem comes_to_rest {v : Variant} (hr : v.recheck = false) (ha : v.awaitRunning = false) (limit : Nat) (s : St) :
+    ∃ evs t, (∀ e ∈ evs, e.internal = true ∧ e.isFailure = false) ∧ run v limit s evs = some t ∧
+      t.quiescent = true ∧ evs.length ≤ s.measure ∧ t.size = s.size ∧ t.blob = s.blob := by
+  obtain ⟨evs, h1, h2⟩ := settle_is_run ha limit s.measure s
+  have hk := internal_run_keeps (fun e he => (h1 e he).1) h2
+  refine ⟨evs, _, h1, h2, settle_quiescent hr ha limit _ s (Nat.le_refl _), ?_, hk.1, hk.2.1⟩
+  -- every internal step lowers the measure
+  have : ∀ (evs : List Ev) (a b : St), (∀ e ∈ evs, e.internal = true) → run v limit a evs = some b →
+      b.measure + evs.length ≤ a.measure := by
+    intro evs
+    induction evs with
+    | nil => intro a b _ h; simp at h; subst h; simp
+    | cons e es ih =>
+      intro a b hi h
+      simp only [run_cons] at h
+      cases hst : step v limit a e with
+      | none => simp [hst] at h
+      | some u =>
+        simp only [hst, Option.bind_some] at h
+        have h3 := measure_step hr (hi e (by simp)) hst
+        have h4 := ih u b (fun e he => hi e (by simp [he])) h
+        simp only [List.length_cons]
+        omega
+  have := this evs s _ (fun e he => (h1 e he).1) h2
+  omega
+
+/-- whenever the un-synced bytes exceed the limit by more than the blind bytes, a sync is performed without further
+    client action: left alone (no failure so far, none later) the protocol reaches a state at rest within the bound,
+    and the file size is the one it had - the bound was restored by a sync, not by anything else -/
+theorem sync_without_client_action_partial {v : Variant} (hv : v.protoOk = true) (ha : v.awaitRunning = false)
+    {limit : Nat} {s : St} (h : ReachOk v limit s) :
+    ∃ evs t, (∀ e ∈ evs, e.internal = true ∧ e.isFailure = false) ∧ run v limit s evs = some t ∧
+      t.quiescent = true ∧ t.size = s.size ∧ t.blob = s.blob ∧ t.blind ≤ s.blind ∧
+      t.dirty ≤ limit + s.blind := by
+  obtain ⟨evs, t, h1, h2, h3, _, h5, h6⟩ := comes_to_rest (Variant.recheck_of_protoOk hv) ha limit s
+  have hk := internal_run_keeps (fun e he => (h1 e he).1) h2
+  obtain ⟨base, pre, hpre, hrun⟩ := h
+  have hreach : ReachOk v limit t := by
+    refine ⟨base, pre ++ evs, ?_, ?_⟩
+    · intro e he
+      rcases List.mem_append.1 he with he | he
+      · exact hpre e he
+      · exact (h1 e he).2
+    · rw [run_append, hrun]; exact h2
+  have := bounded_at_quiescence_partial hv hreach h3
+  exact ⟨evs, t, h1, h2, h3, h5, h6, hk.2.2, by omega⟩
+
+/-- (3), with failures: after ANY history (failed syncs included), once the protocol is at rest, the first write
+    that takes the active blob over the limit leads to a sync again: the request is sent (the flag is clear), the
+    worker starts a task (the handle is absent or finished), the task wins the compare-exchange, passes the check and
+    starts `sync_all` with a captured size that includes the write; when that sync succeeds the blob has no
+    un-synced byte and the protocol is at rest again with the flag clear. -/
+theorem sync_after_failure {v : Variant} (hv : v.protoOk = true) {limit : Nat} {s : St} (h : Reach v limit s)
+    (hq : s.quiescent = true) {n : Nat} (hover : s.size + n - s.synced > limit) :
+    ∃ t u, run v limit s [.write n, .recv, .cas, .check, .start] = some t ∧
+      t.phase = .syncing (s.size + n) ∧
+      run v limit t [.complete true, .release, .finish] = some u ∧
+      u.quiescent = true ∧ u.flag = false ∧ u.dirty = 0 := by
+  obtain ⟨t, u, h1, h2, _, _, h5, h6, h7, _, h9, h10, _⟩ :=
+    write_over_limit_syncs hv (ctl_reach (Variant.guarded_of_protoOk hv) h) hq hover
+  refine ⟨t, u, h1, h2, h5, h6, h7, ?_⟩
+  simp only [St.dirty, h9, h10]
+  omega
+
+-- non-vacuity: the state at rest after a failed sync (220 bytes, 20 synced, limit 100), then a 1-byte write
+example : ∃ t u, run current 100 ⟨220, 20, false, .finished, .idle, 0, 0, 20, 0, 0⟩
+      [.write 1, .recv, .cas, .check, .start] = some t ∧ t.phase = .syncing 221 ∧
+      run current 100 t [.complete true, .release, .finish] = some u ∧
+      u.quiescent = true ∧ u.flag = false ∧ u.dirty = 0 :=
+  sync_after_failure (v := current) rfl
+    ⟨20, [.write 200, .recv, .cas, .check, .start, .complete false, .release, .finish], by decide⟩ rfl (by decide)
+-- non-vacuity of the partial bound: the refuting run satisfies it with equality-free slack (369 ≤ 100 + 369)
+example : (⟨837, 468, false, .finished, .idle, 0, 0, 468, 369, 0⟩ : St).dirty ≤ 100 + 369 :=
+  bounded_at_quiescence_partial (v := current) rfl
+    ⟨20, [.write 79, .write 369, .recv, .cas, .check, .start, .write 369, .complete true, .release, .finish],
+      by decide, by decide +kernel⟩ rfl
+-- … and a run with two concurrent client calls (appends first, then their `should_try_fsync`, the second one after
+-- the task has taken the flag) and a redundant request, but no append in the window, ends within the limit
+example : (⟨588, 588, false, .finished, .idle, 0, 0, 588, 0, 0⟩ : St).dirty ≤ 100 :=
+  bounded_at_quiescence_no_blind_write (v := current) rfl (base := 20)
+    (evs := [.append 200, .append 368, .decide, .recv, .cas, .decide, .check, .start, .complete true, .release,
+      .finish])
+    (by decide) (by decide +kernel) (by decide +kernel) rfl
+-- … and a run with two writes racing the worker but none in the window ends within the limit
+example : (⟨588, 588, false, .finished, .idle, 0, 0, 588, 0, 0⟩ : St).dirty ≤ 100 :=
+  bounded_at_quiescence_no_blind_write (v := current) rfl (base := 20)
+    (evs := [.write 200, .write 368, .recv, .cas, .check, .start, .complete true, .release, .finish, .recv,
+      .cas, .check, .release, .finish])
+    (by decide) (by decide +kernel) (by decide +kernel) rfl
+
+/-! ### (6) `Fs` is the projection of the protocol onto the states at rest -/
+
+/-- what `Fs.fsyncCheckP` does to the counters of the active blob file, and the event it emits -/
+theorem fsyncCheckP_is_checkEffect (s : Fs.FsState) (a : Blob) (f : FileS) (ha : s.store.active = some a)
+    (hf : s.disk.files a.id = some f) :
+    ((Fs.fsyncCheckP s).1.disk.files a.id).map (fun g => (g.size, g.synced)) =
+        some (checkEffect s.limit f.size f.synced) ∧
+      (Fs.fsyncCheckP s).2 = if f.size - f.synced > s.limit then [.sync (.blob a.id) f.size] else [] := by
+  by_cases h : f.size - f.synced > s.limit <;>
+    simp [Fs.fsyncCheckP, Fs.acts, ha, Fs.FsState.dirtyOf, hf, Fs.Disk.runActs, Fs.Disk.exec, Fs.Disk.setFile,
+      FileS.dirty, checkEffect, h]
+
+/-- (6) From a reachable state at rest, a client write followed by ANY schedule of internal steps without a failure
+    that ends at rest has, on (`size`, `synced_size`), exactly the effect of the write followed by `Fs.fsyncCheckP`;
+    the flag is clear again and the active blob is the same. -/
+theorem quiescent_projection {v : Variant} (hv : v.protoOk = true) {limit : Nat} {s : St} (h : Reach v limit s)
+    (hq : s.quiescent = true) (n : Nat) {evs : List Ev} {t : St}
+    (hint : ∀ e ∈ evs, e.internal = true ∧ e.isFailure = false)
+    (hrun : run v limit s (.write n :: evs) = some t) (htq : t.quiescent = true) :
+    (t.size, t.synced) = checkEffect limit (s.size + n) s.synced ∧ t.flag = false ∧ t.blob = s.blob := by
+  have hc := ctl_reach (Variant.guarded_of_protoOk hv) h
+  simp only [run_cons, step_write, Option.bind_some] at hrun
+  have hl := lone_afterWrite (limit := limit) hq n
+  have huniq := internal_run_unique hl hint hrun htq (fuel := evs.length + 7) (by omega)
+  have hflag : s.flag = false := by
+    rw [quiescent_iff] at hq
+    rw [hc.flag, hq.2.1]; rfl
+  by_cases hover : s.size + n - s.synced > limit
+  · obtain ⟨t', u, h1, _, _, _, h5, h6, h7, _, h9, h10, h11⟩ := write_over_limit_syncs hv hc hq hover
+    have hcanon : run v limit (afterWrite limit s n) syncSchedule = some u := by
+      have : run v limit s ([.write n, .recv, .cas, .check, .start] ++ [.complete true, .release, .finish])
+          = some u := by rw [run_append, h1]; exact h5
+      simpa [syncSchedule] using this
+    have hu := internal_run_unique hl (evs := syncSchedule) (by decide) hcanon h6 (fuel := evs.length + 7)
+      (by simp [syncSchedule])
+    have htu : t = u := by rw [← huniq, hu]
+    subst htu
+    simp [checkEffect, hover, h9, h10, h7, h11]
+  · obtain ⟨hrest, hsy⟩ := write_within_limit_rests hq hover
+    have : settle v limit (evs.length + 7) (afterWrite limit s n) = afterWrite limit s n :=
+      settle_of_next_none ((next_none_iff _ _).2 hrest) _
+    have hta : t = afterWrite limit s n := by rw [← huniq, this]
+    subst hta
+    simp [checkEffect, hover, afterWrite, hflag]
+
+/-- … and such a schedule exists (so the statement above is not vacuous for any state and any write) -/
+theorem quiescent_projection_exists {v : Variant} (hr : v.recheck = false) (ha : v.awaitRunning = false)
+    (limit : Nat) (s : St) (n : Nat) :
+    ∃ evs t, (∀ e ∈ evs, e.internal = true ∧ e.isFailure = false) ∧
+      run v limit s (.write n :: evs) = some t ∧ t.quiescent = true := by
+  obtain ⟨evs, t, h1, h2, h3, _⟩ := comes_to_rest hr ha limit (afterWrite limit s n)
+  exact ⟨evs, t, h1, by simpa using h2, h3⟩
+
+-- non-vacuity: limit 100; 79 bytes stay un-synced, 80 bytes are synced (`run true 79 …` / `run true 78 …` above)
+example : checkEffect 100 (20 + 79) 20 = (99, 20) ∧ checkEffect 100 (20 + 101) 20 = (121, 121) := by decide
+example : ∃ t, run current 100 (init 20) (.write 101 :: syncSchedule) = some t ∧ t.quiescent = true ∧
+    (t.size, t.synced) = checkEffect 100 (20 + 101) 20 := by
+  refine ⟨⟨121, 121, false, .finished, .idle, 0, 0, 121, 0, 0⟩, by decide, rfl, by decide⟩
+
+/-! ### (5) the four seeded changes are caught: counter-models -/
+
+/-- Seeded "guard armed after the early return".  One write passes the dirty limit and fills the blob; the worker
+    rotates first, so the task finds the NEW active blob within the limit and returns early - without a guard, the
+    flag stays set.  (1) is violated at rest; from then on no write ever sends a request, no sync is ever started, and
+    the un-synced bytes at rest exceed any bound although no write landed in the blind window and nothing failed.
+    The shipped code ends the same schedule with the flag clear. -/
+theorem guardLate_counter_model :
+    let evs : List Ev := [.write 200, .rotate 20, .recv, .cas, .check, .release, .finish]
+    let s : St := ⟨20, 20, true, .finished, .idle, 0, 1, 20, 0, 0⟩
+    run guardLate 100 (init 20) evs = some s ∧ s.quiescent = true ∧
+      (s.flag = true ∧ s.phase.owns = false) ∧
+      (∀ evs' t, run guardLate 100 s evs' = some t → Ev.start ∉ evs' ∧ t.queue = 0 ∧ t.flag = true) ∧
+      (∀ N, ∃ t, ReachOk guardLate 100 t ∧ t.quiescent = true ∧ t.blind = 0 ∧ t.dirty > N) ∧
+      (run current 100 (init 20) evs).map (·.flag) = some false := by
+  refine ⟨by decide, rfl, ⟨rfl, rfl⟩, ?_, ?_, by decide⟩
+  · intro evs' t h
+    have hs : Stuck (⟨20, 20, true, .finished, .idle, 0, 1, 20, 0, 0⟩ : St) := ⟨rfl, rfl, rfl⟩
+    have h1 := stuck_run hs h
+    exact ⟨(stuck_never_syncs evs' _ t hs h).1, h1.2.2, h1.1⟩
+  · intro N
+    refine ⟨⟨20 + (N + 1), 20, true, .finished, .idle, 0, 1, 20, 0, 0⟩,
+      ⟨20, [.write 200, .rotate 20, .recv, .cas, .check, .release, .finish, .write (N + 1)],
+        by simp [Ev.isFailure], ?_⟩, rfl, rfl, ?_⟩
+    · simp [run, step, init, shouldTryFsync, tooMany, St.dirty, Phase.blind, Phase.locked, guardLate]
+    · simp only [St.dirty]; omega
+
+/-- Seeded "explicit reset skipped by `?` on error".  One failed background sync leaves the flag set: after the failure
+    the first later write over the limit (and every later one) does NOT lead to a sync.  The shipped code ends the
+    same schedule with the flag clear and the request of the next write queued. -/
+theorem resetSkipped_counter_model :
+    let evs : List Ev := [.write 200, .recv, .cas, .check, .start, .complete false, .release, .finish]
+    let s : St := ⟨220, 20, true, .finished, .idle, 0, 0, 20, 0, 0⟩
+    run resetSkipped 100 (init 20) evs = some s ∧ s.quiescent = true ∧
+      (s.flag = true ∧ s.phase.owns = false) ∧
+      (∀ evs' t, run resetSkipped 100 s evs' = some t → Ev.start ∉ evs' ∧ t.queue = 0 ∧ t.flag = true) ∧
+      (run current 100 (init 20) (evs ++ [.write 500])).map (fun t => (t.flag, t.queue)) = some (false, 1) := by
+  refine ⟨by decide, rfl, ⟨rfl, rfl⟩, ?_, by decide⟩
+  intro evs' t h
+  have hs : Stuck (⟨220, 20, true, .finished, .idle, 0, 0, 20, 0, 0⟩ : St) := ⟨rfl, rfl, rfl⟩
+  have h1 := stuck_run hs h
+  exact ⟨(stuck_never_syncs evs' _ t hs h).1, h1.2.2, h1.1⟩
+
+/-- Seeded "`fsync_task.is_some()` instead of `!is_finished()`".  The handle of the first task is finished but not yet
+    reaped when the request of the next write over the limit arrives (the worker was waiting in `recv` all the time):
+    the request is dropped.  At rest: 200 un-synced bytes with limit 100, no write in the blind window, no failure -
+    `bounded_at_quiescence_no_blind_write` is violated.  The shipped code spawns the second task. -/
+theorem notReaped_counter_model :
+    let evs : List Ev := [.write 200, .recv, .cas, .check, .start, .complete true, .release, .finish, .write 200, .recv]
+    let s : St := ⟨420, 220, false, .none, .idle, 0, 0, 220, 0, 0⟩
+    run notReaped 100 (init 20) evs = some s ∧ s.quiescent = true ∧
+      (∀ e ∈ evs, e.isFailure = false) ∧ noBlindWrite notReaped 100 (init 20) evs = true ∧
+      s.dirty = 200 ∧ ¬ s.dirty ≤ 100 ∧
+      (run current 100 (init 20) evs).map (·.phase) = some .spawned := by
+  refine ⟨by decide, rfl, by decide, by decide +kernel, by decide, by decide, by decide⟩
+
+/-- Seeded "`fetch_max` outside the success path".  A failed `sync_all` publishes the captured size: `synced_size`
+    (220) exceeds everything a successful sync ever covered (20).  The shipped code leaves it at 20. -/
+theorem publishAlways_counter_model :
+    let evs : List Ev := [.write 200, .recv, .cas, .check, .start, .complete false]
+    (run publishAlways 100 (init 20) evs).map (fun t => (t.synced, t.durable)) = some (220, 20) ∧
+      ¬ (∀ s, Reach publishAlways 100 s → s.synced ≤ s.durable) ∧
+      (run current 100 (init 20) evs).map (fun t => (t.synced, t.durable)) = some (20, 20) := by
+  refine ⟨by decide, ?_, by decide⟩
+  intro h
+  have := h ⟨220, 220, true, .running, .returned true, 0, 0, 20, 0, 0⟩
+    ⟨20, [.write 200, .recv, .cas, .check, .start, .complete false], by decide⟩
+  exact absurd this (by decide)
+
+/-! ### what would make (2) and (3) true: a candidate repair (NOT in /repo) -/
+
+/-- With two changes - the spawned closure evaluates `should_try_fsync` once more after `Inner::fsyncdata` has
+    returned (flag reset) and runs it again when it holds; `try_run_fsync_task` awaits an unfinished task instead of
+    dropping the request - the bound of the property holds at rest after EVERY schedule (blind writes, split writes,
+    failed syncs included; a failed sync is retried by the re-check, so rest is only reached once one succeeded or the
+    bytes are within the limit). -/
+theorem bounded_at_quiescence_repaired {v : Variant} (hv : v.repairedOk = true) {limit : Nat} {s : St}
+    (h : Reach v limit s) (hq : s.quiescent = true) : s.dirty ≤ limit := by
+  have hc := (coverR_reach hv h).2
+  rw [quiescent_iff] at hq
+  simp only [CoverR, hq.2.1, hq.1, hq.2.2, Nat.lt_irrefl, false_or] at hc
+  simp only [St.dirty]
+  omega
+
+/-- (1) and (4) hold for it as well -/
+theorem repaired_flag_and_size {limit : Nat} {s : St} (h : Reach repaired limit s) :
+    (s.flag = true → s.phase.owns = true ∧ s.hdl = .running) ∧ s.synced ≤ s.durable ∧ s.durable ≤ s.size :=
+  ⟨flag_implies_task (v := repaired) rfl h, synced_size_sound (v := repaired) rfl h⟩
+
+-- the two refuting schedules of `no_lost_request_refuted`, continued by the repaired protocol: (a) the re-check finds
+-- the 369 blind bytes and syncs them; (b) the request sent in the window cannot be received before the task has
+-- finished (`recv` is not enabled: `none`), and is served afterwards
+example : run repaired 100 (init 20) [.write 79, .write 369, .recv, .cas, .check, .start, .write 369, .complete true,
+      .release, .recheck, .cas, .check, .start, .complete true, .release, .recheck, .finish] =
+    some ⟨837, 837, false, .finished, .idle, 0, 0, 837, 0, 0⟩ := by decide +kernel
+example : run repaired 100 (init 20) [.write 200, .recv, .cas, .check, .start, .complete true, .release, .recheck,
+      .write 200, .recv] = none := by decide +kernel
+example : run repaired 100 (init 20) [.write 200, .recv, .cas, .check, .start, .complete true, .release, .recheck,
+      .write 200, .finish, .recv, .cas, .check, .start, .complete true, .release, .recheck, .finish] =
+    some ⟨420, 420, false, .finished, .idle, 0, 0, 420, 0, 0⟩ := by decide +kernel
+example : (⟨837, 837, false, .finished, .idle, 0, 0, 837, 0, 0⟩ : St).dirty ≤ 100 :=
+  bounded_at_quiescence_repaired (v := repaired) rfl
+    ⟨20, [.write 79, .write 369, .recv, .cas, .check, .start, .write 369, .complete true,
+      .release, .recheck, .cas, .check, .start, .complete true, .release, .recheck, .finish], by decide +kernel⟩ rfl
+
+end SyncProto
+end Pearl
+
+/-
+NOT YET PROVED / outside the model (sync request protocol):
+* FALSE of /repo as it is, with proof of the negation: `no_lost_request` and `bounded_at_quiescence` as stated
+  (`no_lost_request_refuted`, `bounded_at_quiescence_refuted`, `bounded_at_quiescence_refuted_any`); schedule (a)
+  reproduced on the real library with the pause failpoint.  Proved instead: the bound `limit + blind`
+  (`bounded_at_quiescence_partial`), the bound `limit` when no append lands after a task's size capture
+  (`bounded_at_quiescence_no_blind_write`), and the bound `limit` for the candidate repair
+  (`bounded_at_quiescence_repaired`).
+* Schedule (b) of `no_lost_request_refuted` (request sent after the guard reset the flag, received before
+  `JoinHandle::is_finished`) could not be replayed: the hook has no pause point between the guard's `Drop` and the end
+  of the task.
+* Liveness is stated as "the internal steps are enabled and every internal schedule has at most `measure` steps"
+  (`comes_to_rest`, `sync_without_client_action_partial`, `sync_after_failure`); fairness of the tokio scheduler is
+  assumed, not modelled.  For the candidate repair only safety is proved (a sync that fails for ever is retried for
+  ever).
+* Not modelled here: the explicit `Storage::fsyncdata`, `close_active_blob` and `restore_active_blob` (they sync the
+  blob themselves, under `Fs`), a full worker channel (the send of `TryFsyncData` waiting for a slot is a message that
+  stays `pending`), a storage without active blob while the task runs (`safe.fsyncdata()` then does nothing).
+* The link to `Fs` is on the counters of the active blob file (`fsyncCheckP_is_checkEffect`,
+  `quiescent_projection`): one client write between two states at rest.  Several writes between two states at rest
+  differ from `Fs` (the capture covers whatever was appended before it), by design of `Fs` as the sequential model.
+-/
